@@ -75,7 +75,10 @@ def build(work, features=('history', 'autocomplete', 'help')):
         '[workspace]\nresolver = "2"\nmembers = ["embedded-cli", "embedded-cli-macros", "witness"]\n\n'
         '[workspace.package]\nlicense = "MIT OR Apache-2.0"\nedition = "2021"\n')
     shutil.copy('/repo/Cargo.lock', os.path.join(ws, 'Cargo.lock'))
-    env = dict(os.environ, CARGO_NET_OFFLINE='true', CARGO_TARGET_DIR=os.path.join(VERIF, 'witness', 'target'))
+    # build cache: /verif/witness/target for /repo itself (recreated when absent); self-test runs against a scratch copy
+    # of the sources (VERIF_REPO_SRC) get a private target directory so that concurrent runs cannot swap binaries
+    target = os.path.join(VERIF, 'witness', 'target') if 'VERIF_REPO_SRC' not in os.environ else os.path.join(work, 'target')
+    env = dict(os.environ, CARGO_NET_OFFLINE='true', CARGO_TARGET_DIR=target)
     cmd = ['cargo', 'build', '--release', '--offline', '-q', '-p', 'verif-witness', '--no-default-features',
            '--features', ','.join(features) if features else '']
     if not features:
@@ -84,7 +87,10 @@ def build(work, features=('history', 'autocomplete', 'help')):
     log.append(' '.join(cmd))
     if p.returncode != 0:
         return None, log + ['witness build failed:\n' + p.stdout[-3000:]]
-    return os.path.join(VERIF, 'witness', 'target', 'release', 'witness'), log
+    # the binary is copied next to the workspace: a later build in the shared cache cannot replace it under our feet
+    private = os.path.join(work, 'witness-%s' % ('-'.join(features) or 'none'))
+    shutil.copy(os.path.join(target, 'release', 'witness'), private)
+    return private, log
 
 
 def run_driver(binary, driver, seed, iters=20000, timeout=600):
